@@ -160,9 +160,9 @@ def _pullback_formulas(fc, Mr: RuleResult):
         if isinstance(e, ast.Call) and ast.unparse(e.func) == "torch.einsum" and isinstance(e.args[0], ast.Constant):
             spec = e.args[0].value.replace(" ", "")
             ops = sorted(ast.unparse(a) for a in e.args[1:])
-            if spec == "...ae,...ae->...e" and ops == sorted([gvecs, "evecs.conj()"]):
+            if spec == "...rc,...rc->...c" and ops == sorted([gvecs, "evecs.conj()"]):
                 return S("IP")
-            if spec == "...ae,...ae->...e" and ops == sorted([gvecs, "evecs"]):
+            if spec == "...rc,...rc->...c" and ops == sorted([gvecs, "evecs"]):
                 return S("IP_without_conjugation")
             raise Uninterpretable("einsum %s" % ast.unparse(e))
         if isinstance(e, ast.Call) and isinstance(e.func, ast.Attribute) and e.func.attr == "unsqueeze":
